@@ -30,7 +30,7 @@ If(c, name) == IF c THEN {name} ELSE {}
 \* (ids, most recent last), the cleanups already run, the contexts it obtained
 Frame(id, k) == [id |-> id, k |-> k, open |-> TRUE, stack |-> <<>>, ran |-> {}, running |-> 0, ctxs |-> {}, regs |-> 0]
 NoSM == [active |-> FALSE, hasInv |-> FALSE, needInv |-> FALSE, lastSkipped |-> FALSE, failed |-> FALSE, inAct |-> FALSE,
-         inInv |-> FALSE, skips |-> 0, completed |-> 0, actDraws |-> 0, nf |-> FALSE, invRuns |-> 0, steps |-> 0, ovr |-> FALSE, actions |-> {"*"}]
+         inInv |-> FALSE, skips |-> 0, completed |-> 0, actDraws |-> 0, nf |-> FALSE, invRuns |-> 0, steps |-> 0, ovr |-> FALSE, actions |-> {"*"}, key |-> ""]
 
 Init == /\ l = 1 /\ scen = [id |-> ""] /\ fr = <<>> /\ kind = "none" /\ sm = NoSM /\ viol = {} /\ seen = {}
 
@@ -43,7 +43,7 @@ VerdictOf ==
   [ C10 |-> {"context_dead_during_call", "context_live_at_cleanup", "context_live_after_call", "cleanup_not_lifo", "cleanup_not_run",
              "cleanup_run_twice_or_unknown", "cleanup_before_return", "invocation_overlap", "cleanup_after_end", "context_shared_between_invocations"},
     C08 |-> {"invariant_not_first", "invariant_missing_after_action", "invariant_after_skipped_action", "continued_after_falsification",
-             "actions_overlap", "no_valid_action_not_reported", "skipped_action_counted", "invariant_not_run_once", "hangs", "skipped_action_invalidates_run", "action_not_supplied"} ]
+             "actions_overlap", "no_valid_action_not_reported", "skipped_action_counted", "invariant_not_run_once", "hangs", "skipped_action_invalidates_run", "action_not_supplied", "action_not_the_drawn_one"} ]
 Verdicts == IF Property = "ALL" THEN UNION { VerdictOf[p] : p \in DOMAIN VerdictOf } ELSE VerdictOf[Property]
 
 ScenBegin == /\ Is("scen.begin") /\ Adv /\ scen' = Ev /\ fr' = <<>> /\ kind' = "none" /\ sm' = NoSM /\ viol' = {} /\ seen' = {}
@@ -208,10 +208,18 @@ SmActEnd ==
   /\ viol' = viol /\ UNCHANGED <<scen, fr, kind, seen>>
 
 \* draws and signals inside an action / invariant
+\* Under -rapid.v the TB is told which action key Repeat drew; the action function that then runs (it announces itself with a draw event
+\* labelled "action") must be the one supplied under that key
+SmKeyLogged ==
+  /\ Is("tb.logf") /\ Adv
+  /\ sm' = IF sm.active /\ Ev.class = "draw" /\ Ev.label = "action" THEN [sm EXCEPT !.key = Ev.val] ELSE sm
+  /\ viol' = viol /\ UNCHANGED <<scen, fr, kind, seen>>
 SmDraw ==
   /\ Is("draw") /\ Adv
-  /\ sm' = IF sm.inAct /\ Ev.label # "action" THEN [sm EXCEPT !.actDraws = @ + 1] ELSE sm
-  /\ viol' = viol /\ UNCHANGED <<scen, fr, kind, seen>>
+  /\ sm' = IF sm.inAct /\ Ev.label # "action" THEN [sm EXCEPT !.actDraws = @ + 1]
+            ELSE IF Ev.label = "action" THEN [sm EXCEPT !.key = ""] ELSE sm
+  /\ viol' = viol \cup If(Ev.label = "action" /\ sm.key # "" /\ sm.key # Ev.val, "action_not_the_drawn_one")
+  /\ UNCHANGED <<scen, fr, kind, seen>>
 SmCall ==
   /\ Is("call") /\ Adv
   /\ sm' = IF sm.active /\ (sm.inAct \/ sm.inInv) /\ Ev.m \in {"errorf", "error", "fail", "fatalf", "fatal", "failnow", "fatalfc"} THEN [sm EXCEPT !.nf = TRUE] ELSE sm
@@ -235,14 +243,14 @@ SmEnd ==
 
 Handled == {"h.custom.begin", "hang", "example.begin", "example.end", "scen.begin", "scen.end", "h.phase", "h.once.begin", "inv.begin", "cinv.begin", "inv.end", "cinv.end", "h.custom.end", "h.once.end",
             "cleanup.reg", "cleanup.run", "cleanup.end", "ctx", "sm.begin", "sm.inv.begin", "sm.inv.end", "sm.action.begin", "sm.action.end",
-            "draw", "call", "h.repeat.more", "sm.end", "h.overrun"}
+            "draw", "call", "h.repeat.more", "sm.end", "h.overrun", "tb.logf"}
 \* the watchdog saw an invocation still running after 90 s: the library hung
 Hang == /\ Is("hang") /\ Adv /\ viol' = viol \cup {"hangs"} /\ UNCHANGED <<scen, fr, kind, sm, seen>>
 
 Other == /\ l <= Len(Trace) /\ Trace[l].ev \notin Handled /\ Adv /\ UNCHANGED <<scen, fr, kind, sm, viol, seen>>
 
 Next == CustomBegin \/ Hang \/ ExampleBegin \/ ExampleEnd \/ ScenBegin \/ ScenEnd \/ Phase \/ OnceBegin \/ InvBegin \/ CInvBegin \/ InvEnd \/ CInvEnd \/ CustomEnd \/ OnceEnd \/ Reg \/ Run \/ RunEnd
-        \/ Ctx \/ SmBegin \/ SmInvBegin \/ SmInvEnd \/ SmActBegin \/ SmActEnd \/ SmDraw \/ SmCall \/ RepeatMore \/ Overrun \/ SmEnd \/ Other
+        \/ Ctx \/ SmBegin \/ SmInvBegin \/ SmInvEnd \/ SmActBegin \/ SmActEnd \/ SmKeyLogged \/ SmDraw \/ SmCall \/ RepeatMore \/ Overrun \/ SmEnd \/ Other
 
 Spec == Init /\ [][Next]_vars
 
